@@ -148,11 +148,16 @@ class ExternalVariableCollector(NodeVisitor):
         self.vardoc = {}
         self.provenance = {v: "closure" for v in closure_vars}
         self.funcnames = set()
+        self.root = tree
         self.visit(tree)
         self.used -= self.funcnames
 
     def visit_FunctionDef(self, node):
         self.funcnames.add(node.name)
+        if node is not self.root:
+            # A nested def binds its name in the enclosing function's scope
+            self.provenance.setdefault(node.name, "body")
+            self.assigned.add(node.name)
         self.generic_visit(node)
 
     def visit_ClassDef(self, node):
